@@ -1,6 +1,6 @@
 //! C17 OwningAddr hands back the actor's final state exactly once.
 use super::Verdict;
-use crate::{analysis::*, history::*};
+use crate::{analysis::*, history::*, model::*};
 
 pub fn check(v: &View, vd: &mut Verdict) {
     let mut nt = false;
@@ -71,6 +71,13 @@ pub fn check(v: &View, vd: &mut Verdict) {
                     }
                 }
                 _ => {}
+            }
+        }
+        // the stopped callback is never cut short (a handler timeout is about handlers)
+        if let Some(c) = v.cbs.iter().rev().find(|c| c.actor == a && c.cb == Cb::Stopped) {
+            let faulty = v.case.faults.iter().any(|f| matches!(f, Fault::StopPanic { .. } | Fault::CancelActor { .. }));
+            if c.exit.is_none() && matches!(av.task_end, Some((_, crate::sim::TaskEnd::Done))) && !faulty {
+                vd.fail("C17/stopped_cut_short", format!("actor {a}: stopped() was entered at {} but never completed, yet the task ended normally (join handed out {:?})", c.enter, joins.first().and_then(|j| j.res.clone())));
             }
         }
         if !av.graceful && av.task_end.is_some() && !joins.is_empty() {
